@@ -10,6 +10,10 @@ import (
 	"github.com/gobuffalo/pop/v6"
 	"github.com/gofrs/uuid"
 
+	"github.com/ory/keto/internal/driver/config"
+	"github.com/ory/keto/internal/namespace"
+	"github.com/ory/keto/internal/namespace/ast"
+
 	"github.com/ory/keto/internal/relationtuple"
 	"github.com/ory/keto/internal/x"
 )
@@ -319,3 +323,347 @@ func bothOrNeitherB(a, b bool) bool {
 }
 
 var _ = uuid.Nil
+
+// ---------------------------------------------------------------------------------------
+// C07: pagination returns every matching relationship exactly once
+
+// HarnessC07: arbitrary table, symbolic query shape and page size, one
+// interleaved write between two page fetches.
+func HarnessC07() {
+	K := verifParam("K")
+	db = &dbState{rows: dbSymRows(K)}
+	dbInserted = nil
+	dbQueries = map[*pop.Query]*dbQuery{}
+	pre := dbCopyRows(db.rows)
+	p := newModelPersister(0)
+	ctx := context.Background()
+	q := pickQuery(false)
+	size := verifIntRange(0, K+1)
+	eff := verifIte(verifEq(size, 0), 100, size)
+
+	// the interleaved write: none | insert an arbitrary relationship | delete slot d
+	kind := verifChoice(3)
+	after := verifChoice(2) // after page 1 or page 2
+	var insT apiTuple
+	delSlot := -1
+	if kind == 1 {
+		insT = pickTuple(false)
+	} else if kind == 2 {
+		delSlot = verifChoice(K)
+	}
+
+	var all []*relationtuple.RelationTuple
+	token := ""
+	pages := 0
+	ended := false
+	for pages < K+3 {
+		res, next, err := p.GetRelationTuples(ctx, q.value(), x.WithToken(token), x.WithSize(size))
+		if err != nil {
+			verifFail("C07: GetRelationTuples fails on a token it handed out: " + err.Error())
+			return
+		}
+		pages++
+		verifAssert(verifNot(verifLess(eff, len(res))), "C07: a page holds more than page_size relationships")
+		all = append(all, res...)
+		if next == "" {
+			ended = true
+			break
+		}
+		verifAssert(len(res) > 0, "C07: an empty page carries a next-page token")
+		token = next
+		if pages == after+1 {
+			switch kind {
+			case 1:
+				if err := p.WriteRelationTuples(ctx, insT.value()); err != nil {
+					verifFail("C07: interleaved write fails")
+					return
+				}
+			case 2:
+				// another client deletes the row in slot d (directly in the model)
+				db.rows[delSlot].present = false
+			}
+		}
+	}
+	verifReach("c07.iterated")
+	verifAssert(ended, "C07: following next_page_token does not end")
+	if !ended {
+		return
+	}
+	// stable rows: matching rows of network A present for the whole iteration
+	stable := func(s int) bool {
+		if s == delSlot {
+			return false
+		}
+		return verifAnd(pre[s].present, verifAnd(verifEq(pre[s].nid, 0), rowMatches(pre[s], q)))
+	}
+	unstable := func(s int) bool {
+		if s == delSlot {
+			return verifAnd(pre[s].present, verifAnd(verifEq(pre[s].nid, 0), rowMatches(pre[s], q)))
+		}
+		return false
+	}
+	nStable, nUnstable := 0, 0
+	for s := 0; s < K; s++ {
+		nStable = nStable + b2i(stable(s))
+		nUnstable = nUnstable + b2i(unstable(s))
+	}
+	if kind == 1 {
+		nUnstable = nUnstable + 1
+	}
+	n := len(all)
+	verifAssert(verifNot(verifLess(n, nStable)), "C07: a relationship that existed for the whole iteration is missing from the pages")
+	verifAssert(verifNot(verifLess(nStable+nUnstable, n)), "C07: the pages hold more relationships than exist (something is returned twice)")
+	for _, lt := range all {
+		t := tupleOfInternal(lt)
+		have := 0
+		for _, o := range all {
+			have = have + b2i(tupleEq(tupleOfInternal(o), t))
+		}
+		lo, hi := 0, 0
+		for s := 0; s < K; s++ {
+			is := rowIsTuple(pre[s], t)
+			lo = lo + b2i(verifAnd(stable(s), is))
+			hi = hi + b2i(verifAnd(verifOr(stable(s), unstable(s)), is))
+		}
+		if kind == 1 {
+			hi = hi + b2i(tupleEq(insT, t))
+		}
+		verifAssert(verifNot(verifLess(have, lo)), "C07: a stable relationship is returned fewer times than it is stored")
+		verifAssert(verifNot(verifLess(hi, have)), "C07: a relationship is returned more often than it is stored")
+	}
+	// every stable row's content is among the listed tuples with the right count
+	for s := 0; s < K; s++ {
+		cnt := 0
+		for _, o := range all {
+			cnt = cnt + b2i(rowIsTuple(pre[s], tupleOfInternal(o)))
+		}
+		verifAssert(verifOr(verifNot(stable(s)), verifLess(0, cnt)), "C07: a relationship that existed for the whole iteration is not on any page")
+	}
+}
+
+// HarnessC07Token: malformed tokens are rejected with ErrMalformedPageToken.
+func HarnessC07Token() {
+	db = &dbState{rows: dbSymRows(1)}
+	dbQueries = map[*pop.Query]*dbQuery{}
+	p := newModelPersister(0)
+	tok := []string{"x", "not-a-uuid", "00000000-0000-0000-0000-00000000000", "zzzzzzzz-zzzz-zzzz-zzzz-zzzzzzzzzzzz"}[verifChoice(4)]
+	_, _, err := p.GetRelationTuples(context.Background(), &relationtuple.RelationQuery{}, x.WithToken(tok))
+	verifReach("c07.token")
+	verifAssert(err != nil, "C07: a malformed page token is accepted")
+}
+
+// ---------------------------------------------------------------------------------------
+// C05: multi-relationship writes are atomic
+
+func rowsEqual(a, b dbRow) bool {
+	same := verifAnd(verifAnd(verifEq(a.nid, b.nid), verifEq(a.ns, b.ns)), verifAnd(verifEq(a.obj, b.obj), verifEq(a.rel, b.rel)))
+	same = verifAnd(same, bothOrNeitherB(a.isSet, b.isSet))
+	same = verifAnd(same, verifAnd(verifEq(a.sid, b.sid), verifAnd(verifEq(a.sns, b.sns), verifAnd(verifEq(a.sobj, b.sobj), verifEq(a.srel, b.srel)))))
+	// content only matters for present rows
+	return verifAnd(bothOrNeitherB(a.present, b.present), verifOr(verifNot(a.present), same))
+}
+
+// HarnessC05: a write operation in which terminal database operation number
+// failAt fails, or which contains a relationship without subject at a symbolic
+// position: on error the table is exactly what it was before.
+func HarnessC05() {
+	K := verifParam("K")
+	db = &dbState{rows: dbSymRows(K)}
+	dbInserted = nil
+	dbQueries = map[*pop.Query]*dbQuery{}
+	pre := dbCopyRows(db.rows)
+	p := newModelPersister(0)
+	ctx := context.Background()
+	nIns, nDel := verifChoice(3), verifChoice(3)
+	var ins, del []*relationtuple.RelationTuple
+	for i := 0; i < nIns; i++ {
+		ins = append(ins, pickTuple(false).value())
+	}
+	for i := 0; i < nDel; i++ {
+		del = append(del, pickTuple(false).value())
+	}
+	// optionally one relationship without subject
+	bad := verifChoice(nIns + nDel + 1)
+	if bad < nIns {
+		ins[bad].Subject = nil
+	} else if bad < nIns+nDel {
+		del[bad-nIns].Subject = nil
+	}
+	db.failAt = verifChoice(4) // 0 = no fault, else the 1st..3rd terminal operation fails
+	var err error
+	switch verifChoice(3) {
+	case 0:
+		verifTag("transact")
+		err = p.TransactRelationTuples(ctx, ins, del)
+	case 1:
+		verifTag("create")
+		err = p.WriteRelationTuples(ctx, ins...)
+	default:
+		verifTag("delete")
+		err = p.DeleteRelationTuples(ctx, del...)
+	}
+	verifReach("c05.done")
+	verifAssert(db.outsideTx == 0, "C05: a statement of a write operation was issued outside the open transaction")
+	if err != nil {
+		verifCover("c05.failed")
+		verifAssert(len(db.rows) == len(pre), "C05: a failed write left rows behind")
+		for s := 0; s < len(pre) && s < len(db.rows); s++ {
+			verifAssert(rowsEqual(db.rows[s], pre[s]), "C05: after a failed write the stored relationships are not exactly what they were before")
+		}
+		return
+	}
+	verifCover("c05.succeeded")
+	verifAssert(db.failed == 0, "C05: a write reports success although a statement failed")
+}
+
+// HarnessC05Chunks: writes that span the internal chunk sizes (3000 per INSERT,
+// 100 per DELETE): the second statement fails => nothing of the first remains.
+func HarnessC05Chunks() {
+	db = &dbState{}
+	dbInserted = nil
+	dbQueries = map[*pop.Query]*dbQuery{}
+	p := newModelPersister(0)
+	ctx := context.Background()
+	mk := func(i int) *relationtuple.RelationTuple {
+		var o uuid.UUID
+		o[0] = 0x0B
+		o[15] = byte(i%3 + 1)
+		return &relationtuple.RelationTuple{Namespace: "N", Object: o, Relation: "r", Subject: &relationtuple.SubjectID{ID: o}}
+	}
+	which := verifChoice(2)
+	db.failAt = verifChoice(3) // 0 none, 1 first statement, 2 second statement
+	var err error
+	if which == 0 {
+		var ts []*relationtuple.RelationTuple
+		for i := 0; i < chunkSizeInsertTuple+1; i++ {
+			ts = append(ts, mk(i))
+		}
+		verifTag("insert-3001")
+		err = p.WriteRelationTuples(ctx, ts...)
+		verifReach("c05.chunks.insert")
+		if db.failAt == 0 {
+			verifAssert(err == nil && len(db.rows) == chunkSizeInsertTuple+1 && db.mutating == 2, "C05: a 3001-relationship insert does not take two statements / does not store all rows")
+		} else {
+			verifAssert(err != nil && len(db.rows) == 0, "C05: a failing statement of a chunked insert leaves rows of an earlier chunk behind")
+		}
+	} else {
+		// three stored rows, delete 101 relationships (two statements)
+		for i := 0; i < 3; i++ {
+			db.rows = append(db.rows, dbRow{present: true, nid: 0, ns: 0, obj: i, rel: 0, sid: i})
+		}
+		pre := dbCopyRows(db.rows)
+		var ts []*relationtuple.RelationTuple
+		for i := 0; i < chunkSizeDeleteTuple+1; i++ {
+			ts = append(ts, mk(i))
+		}
+		verifTag("delete-101")
+		err = p.DeleteRelationTuples(ctx, ts...)
+		verifReach("c05.chunks.delete")
+		if db.failAt == 0 {
+			gone := true
+			for _, r := range db.rows {
+				gone = verifAnd(gone, verifNot(r.present))
+			}
+			verifAssert(err == nil && gone && db.mutating == 2, "C05: a 101-relationship delete does not take two statements / does not delete all")
+		} else {
+			verifAssert(err != nil, "C05: a failing statement of a chunked delete is not reported")
+			for s := range pre {
+				verifAssert(rowsEqual(db.rows[s], pre[s]), "C05: a failing statement of a chunked delete leaves an earlier chunk applied")
+			}
+		}
+	}
+	verifAssert(db.outsideTx == 0, "C05: a statement of a chunked write was issued outside the open transaction")
+}
+
+// ---------------------------------------------------------------------------------------
+// C06 (read side) / Lemma P: the real Traverser and the read paths of the
+// Persister, executed on a table that holds rows of two networks, return what
+// the specification computes from the rows of the caller's network only.
+
+var dbStrict bool
+
+func dbCfgStrictMode(c *config.Config) bool { return dbStrict }
+
+// namespace N: r is a plain relation, s is a permission (has a rewrite)
+func dbCfgNamespaceManager(c *config.Config) (namespace.Manager, error) {
+	return config.NewMemoryNamespaceManager(
+		&namespace.Namespace{Name: "N", Relations: []ast.Relation{{Name: "r"}, {Name: "s", SubjectSetRewrite: &ast.SubjectSetRewrite{Children: ast.Children{&ast.ComputedSubjectSet{Relation: "r"}}}}}},
+		&namespace.Namespace{Name: "M"},
+	), nil
+}
+
+func HarnessC06Traverse() {
+	K := verifParam("K")
+	db = &dbState{rows: dbSymRows(K)}
+	dbInserted = nil
+	dbQueries = map[*pop.Query]*dbQuery{}
+	p := newModelPersister(0)
+	tr := NewTraverser(p)
+	ctx := context.Background()
+	dbStrict = verifChoice(2) == 1
+	start := pickTuple(false)
+	mine := func(s int) bool { return verifAnd(db.rows[s].present, verifEq(db.rows[s].nid, 0)) }
+
+	if verifChoice(2) == 0 {
+		res, err := tr.TraverseSubjectSetExpansion(ctx, start.value())
+		verifReach("c06.expansion")
+		if err != nil {
+			verifFail("C06: TraverseSubjectSetExpansion fails: " + err.Error())
+			return
+		}
+		// specification: slots in order, stop after the first found
+		k := 0
+		stopped := false
+		for s := 0; s < K && !stopped; s++ {
+			r := db.rows[s]
+			c := verifAnd(mine(s), verifAnd(verifAnd(verifEq(r.ns, start.ns), verifEq(r.obj, start.obj)), verifAnd(verifEq(r.rel, start.rel), r.isSet)))
+			if !verifConcretizeBool(c) {
+				continue
+			}
+			found := false
+			for j := 0; j < K; j++ {
+				o := db.rows[j]
+				found = verifOr(found, verifAnd(mine(j), verifAnd(verifAnd(verifEq(o.ns, r.sns), verifEq(o.obj, r.sobj)), verifAnd(verifEq(o.rel, r.srel), rowSubjectIs(o, start.sub)))))
+			}
+			if k >= len(res) {
+				verifFail("C06: the subject-set expansion misses a subject set of the caller's network")
+				return
+			}
+			to := tupleOfInternal(res[k].To)
+			verifAssert(verifAnd(verifAnd(verifEq(to.ns, r.sns), verifEq(to.obj, r.sobj)), verifEq(to.rel, r.srel)), "C06: the subject-set expansion returns a different subject set than stored")
+			verifAssert(bothOrNeitherB(res[k].Found, found), "C06: the 'found' flag of a traversal result is not explained by the rows of the caller's network")
+			k++
+			if verifConcretizeBool(found) {
+				stopped = true
+			}
+		}
+		verifAssert(k == len(res), "C06: the subject-set expansion returns results that no row of the caller's network explains")
+		return
+	}
+	// rewrite traversal over relations {r, s}
+	rels := []string{"r", "s"}
+	res, err := tr.TraverseSubjectSetRewrite(ctx, start.value(), rels)
+	verifReach("c06.rewrite")
+	if err != nil {
+		verifFail("C06: TraverseSubjectSetRewrite fails: " + err.Error())
+		return
+	}
+	// specification: a direct row for one of the queried relations (in strict
+	// mode: only those without rewrite, and only in a namespace that has them)
+	direct := false
+	for s := 0; s < K; s++ {
+		r := db.rows[s]
+		relOK := verifEq(r.rel, 0) // "r"
+		sOK := verifEq(r.rel, 1)   // "s": skipped in strict mode when the start namespace is N (s has a rewrite there)
+		if dbStrict {
+			sOK = verifAnd(sOK, verifNot(verifEq(start.ns, 0)))
+		}
+		direct = verifOr(direct, verifAnd(mine(s), verifAnd(verifAnd(verifEq(r.ns, start.ns), verifEq(r.obj, start.obj)), verifAnd(verifOr(relOK, sOK), rowSubjectIs(r, start.sub)))))
+	}
+	if len(res) == 1 && res[0].Found {
+		verifAssert(direct, "C06: the rewrite traversal reports a direct relationship that the caller's network does not hold")
+	} else {
+		verifAssert(verifNot(direct), "C06: the rewrite traversal misses a direct relationship of the caller's network")
+		verifAssert(len(res) == len(rels), "C06: the rewrite traversal does not return one candidate per relation")
+	}
+}
